@@ -164,29 +164,42 @@ def load_corpus():
 # Coq side (relational: the implementation's per-batch selections are an INPUT of the model)
 
 def impl_psels(case, res):
-    """The pairs every batch evaluated, with multiplicity, read off the triplets mixed_rank_graph returned:
-    Constant -> the triplets' pairs; otherwise the rows come as (mirror, triplet) couples -> the triplet of every couple.
-    -> (psels, rows_problem): rows_problem names a batch whose rows are not such couples (layer C06)."""
+    """The pairs every batch evaluated, with multiplicity, read off the triplets mixed_rank_graph returned AS A MULTISET (property C06
+    leaves the order of a batch's rows free): Constant -> one row per evaluated candidate; otherwise every evaluated candidate
+    contributes its row and the mirrored row (a self pair (x, x): two rows (x, x)), so per unordered pair {a, b}
+    evaluations = rows / 2, rows(a, b) = rows(b, a), and all rows of the pair carry one score.
+    -> (psels, rows_problem): rows_problem names a batch with a row without its mirror / unequal scores (layer C06)."""
     const = case["heuristic"] == H_CONST
     psels, problem = [], None
     for k, b in enumerate(res.get("batches") or []):
         pairs = [tuple(p) for p in (b.get("pairs") or [])]
+        scores = b.get("scores") or [None] * len(pairs)
         if b.get("pairs") is None and problem is None:
             problem = "batch %d (0-based): no triplets returned (%s)" % (k, b.get("pairs_error"))
         if const:
             psels.append(pairs)
             continue
-        ok = len(pairs) % 2 == 0 and all(pairs[2 * i] == (pairs[2 * i + 1][1], pairs[2 * i + 1][0]) for i in range(len(pairs) // 2))
-        if ok:
-            psels.append([pairs[2 * i + 1] for i in range(len(pairs) // 2)])
-        else:
+        rows = Counter(pairs)
+        order, per_pair, sc = [], Counter(), {}
+        for pr, s in zip(pairs, scores):
+            u = ukey(pr)
+            if u not in per_pair:
+                order.append(pr)
+            per_pair[u] += 1
+            sc.setdefault(u, []).append(s)
+        sel = []
+        for pr in order:
+            u = ukey(pr)
+            n = per_pair[u]
+            a, b2 = pr
             if problem is None:
-                problem = "batch %d (0-based): the %d rows are not (mirror row, row) couples: %s" % (k, len(pairs), pairs[:6])
-            seen = []
-            for pr in pairs:                      # best effort: the distinct unordered pairs
-                if ukey(pr) not in [ukey(x) for x in seen]:
-                    seen.append(pr)
-            psels.append(seen)
+                if n % 2 == 1 or (a != b2 and rows[(a, b2)] != rows[(b2, a)]):
+                    problem = ("batch %d (0-based): a row without its mirror: pair {%s, %s} has %d rows (%d as (%s, %s), %d as (%s, %s))" % (
+                        k, a, b2, n, rows[(a, b2)], a, b2, rows[(b2, a)] if a != b2 else rows[(a, b2)], b2, a))
+                elif any(x != sc[u][0] for x in sc[u]) and not all(isinstance(x, float) and x != x for x in sc[u]):
+                    problem = "batch %d (0-based): the rows of pair {%s, %s} carry different scores %s" % (k, a, b2, sc[u][:4])
+            sel.extend([pr] * max(1, (n + 1) // 2))
+        psels.append(sel)
     return psels, problem
 
 
